@@ -363,7 +363,10 @@ class VBPTC12873:
         )
 
         # calculate 5-bit checksum and put bits in correct table positions
-        cs5 = FiveBitChecksum.calculate(bits_deinterleaved.tobytes())
+        # octets of the message most significant bit first, whatever the endianness of the caller's bitarray
+        cs5 = FiveBitChecksum.calculate(
+            bitarray(bits_deinterleaved, endian="big").tobytes()
+        )
         cs5_bits = int2ba(cs5, length=5)
         # CS(4) is most significant bit, in row 3, CS(0) in row 7, same order as deinterleave_cs5_bits reads
         table[2][10] = cs5_bits[0]
